@@ -5,7 +5,11 @@
     interleaving, the three ring modes (default, single issuer, kernel thread), every size of
     the submission queue and any number of unrelated entries in it (a [wake] that finds the
     queue full enters the kernel and tries again; safety only: the termination of that loop is
-    not claimed, a retrying waker counts as "inside its call"). The poller's [io_uring_enter] can
+    not claimed, a retrying waker counts as "inside its call"), and any number [nparked] of futures
+    parked on the blocked-futures list when the race starts (they were polled while the queue was
+    full; [Shared::wake_blocked_futures] — after every successful enter and at the end of every
+    poll — takes the list, wakes as many as there are free slots, locks again and puts the rest
+    back: modelled with all its scheduling points). The poller's [io_uring_enter] can
     be interrupted by a signal at any time (event [PI]: at the call, or while blocked).
     Property theorems only; model in Model/Wake.v, proofs in Proofs/WakeProofs.v. *)
 From A10 Require Import Base.Word Base.Run Gen.Consts Model.Wake Proofs.WakeProofs.
@@ -42,8 +46,9 @@ Proof. exact owed_poller_is_resumable_or_a_waker_is_running_holds. Qed.
 
 (** An interrupted [io_uring_enter] (EINTR at the call, or a signal while blocked) makes the poll
     return: from there on, whatever the wakers do and whatever else happens, the poller never
-    blocks before the poll in progress has returned, and it returns within 9 poller steps (6
-    when the call failed with EINTR). *)
+    blocks before the poll in progress has returned, and it returns within 11 poller steps (7
+    when the call failed with EINTR; a [wake_blocked_futures] that finds parked futures and a
+    free slot has a fourth scheduling point, the second lock). *)
 Theorem C11_interrupted_enter_makes_poll_return : interrupted_enter_makes_poll_return.
 Proof. exact interrupted_enter_makes_poll_return_holds. Qed.
 
@@ -57,19 +62,27 @@ Proof. exact poll_return_clears_owed_holds. Qed.
 Theorem C11_eintr_retry_loses_wakeup_refuted : eintr_retry_loses_wakeup.
 Proof. exact eintr_retry_loses_wakeup_refuted. Qed.
 
+(** NOT the code as it is (seeded change C11-h): a third bit HAS_WAITING ("futures are parked") in
+    the state word, kept by [set_polling], while [PollingState::wake] still compares the whole
+    word with [IS_POLLING]: with one future parked and the poll blocked the word is
+    [IS_POLLING | HAS_WAITING], [wake()] sends no message and the poll sleeps through the wake-up.
+    On the same events the code as it is has the waker committed to post. *)
+Theorem C11_has_waiting_bit_loses_wakeup_refuted : has_waiting_bit_loses_wakeup.
+Proof. exact has_waiting_bit_loses_wakeup_refuted. Qed.
+
 (** Documentation, not a violation: under the stricter reading "a wake targets a poll that is
     inside the kernel, else the next to start" this schedule ends with the second poll blocked
     for ever after waker 1's call; under the API-level reading nothing is owed (the poll in
     progress at waker 1's call returned after it). *)
 Theorem C11_strict_target_reading_refuted :
   exists es,
-    valid (init Default 8 0 2 [1%nat; 1%nat]) es
-    /\ (let s := fst (run step (init Default 8 0 2 [1%nat; 1%nat]) (firstn 16 es)) in
+    valid (init Default 8 0 0 2 [1%nat; 1%nat]) es
+    /\ (let s := fst (run step (init Default 8 0 0 2 [1%nat; 1%nat]) (firstn 16 es)) in
         nth_error es 16 = Some (W 1)
         /\ pp s = PWbH /\ polls s = 2%nat /\ pstate s = N.lor IS_POLLING IS_AWOKEN
         /\ nth_error (wakers s) 1 = Some {| wp := WIdle; calls := 1; wok := false |}
         /\ nth_error (wakers (wstep s 1)) 1 = Some {| wp := WIdle; calls := 0; wok := false |})
-    /\ (let s := fst (run step (init Default 8 0 2 [1%nat; 1%nat]) es) in
+    /\ (let s := fst (run step (init Default 8 0 0 2 [1%nat; 1%nat]) es) in
         pp s = PInKernel /\ polls s = 1%nat /\ cq s = 0 /\ sqh s = sqt s
         /\ all_wakers_finished s /\ ev_ok s Stuck
         /\ owed s = false /\ lost s = false
@@ -83,25 +96,25 @@ Check C11_pending_message_has_a_submitter : pending_message_has_a_submitter.
 Check C11_owed_poller_is_resumable_or_a_waker_is_running :
   owed_poller_is_resumable_or_a_waker_is_running.
 Check (C11_no_lost_ring_wakeup :
-  forall m c prefill npolls wcalls es, valid (init m c prefill npolls wcalls) es ->
-    lost (fst (run step (init m c prefill npolls wcalls) es)) = false).
+  forall m c prefill nparked npolls wcalls es, valid (init m c prefill nparked npolls wcalls) es ->
+    lost (fst (run step (init m c prefill nparked npolls wcalls) es)) = false).
 Check (C11_wake_is_on_its_way :
-  forall m c prefill npolls wcalls es, valid (init m c prefill npolls wcalls) es ->
-    let s := fst (run step (init m c prefill npolls wcalls) es) in
+  forall m c prefill nparked npolls wcalls es, valid (init m c prefill nparked npolls wcalls) es ->
+    let s := fst (run step (init m c prefill nparked npolls wcalls) es) in
     pp s = PInKernel -> owed s = true ->
       0 < cq s \/ sqh s < sqt s \/ exists i w, nth_error (wakers s) i = Some w /\ wp w <> WIdle).
 Check (C11_awoken_bit_makes_next_poll_prompt :
   forall s, pp s = PSetPolling -> N.testbit (pstate s) 1 = true ->
     let s' := pstep s in aw s' = true /\ pstate s' = IS_POLLING).
 Check (C11_pending_message_has_a_submitter :
-  forall m c prefill npolls wcalls es,
-    let s := fst (run step (init m c prefill npolls wcalls) es) in
+  forall m c prefill nparked npolls wcalls es,
+    let s := fst (run step (init m c prefill nparked npolls wcalls) es) in
     sqh s + sqo s < sqt s ->
       md s = KernelThread
       \/ exists i w, nth_error (wakers s) i = Some w /\ (wp w = WEnterH \/ wp w = WEnterT)).
 Check (C11_owed_poller_is_resumable_or_a_waker_is_running :
-  forall m c prefill npolls wcalls es, valid (init m c prefill npolls wcalls) es ->
-    let s := fst (run step (init m c prefill npolls wcalls) es) in
+  forall m c prefill nparked npolls wcalls es, valid (init m c prefill nparked npolls wcalls) es ->
+    let s := fst (run step (init m c prefill nparked npolls wcalls) es) in
     pp s = PInKernel -> owed s = true ->
       0 < cq s \/ (md s = KernelThread /\ sqh s + sqo s < sqt s)
       \/ exists i w, nth_error (wakers s) i = Some w /\ wp w <> WIdle).
@@ -116,16 +129,16 @@ Check (C11_interrupted_enter_makes_poll_return :
     /\ (let s1 := fst (run step s0 es) in
         (polls s1 <= n)%nat
         \/ (polls s1 = S n /\ pp s1 <> PInKernel
-            /\ exists d, ret_dist (pp s1) = Some d /\ (d + poller_events es <= 9)%nat))).
+            /\ exists d, ret_dist (pp s1) = Some d /\ (d + poller_events es <= 11)%nat))).
 Check (C11_poll_return_clears_owed :
   forall s e, polls (fst (step s e)) <> polls s -> owed (fst (step s e)) = false).
 Check (C11_eintr_retry_loses_wakeup_refuted :
   exists es,
-    valid_loop (init Default 8 0 1 [1%nat]) es
+    valid_loop (init Default 8 0 0 1 [1%nat]) es
     /\ nth_error es 0 = Some (W 0) /\ nth_error es 5 = Some PI
-    /\ (let s := fst (run step_loop (init Default 8 0 1 [1%nat]) (firstn 5 es)) in
+    /\ (let s := fst (run step_loop (init Default 8 0 0 1 [1%nat]) (firstn 5 es)) in
         pp s = PEnterT /\ aw s = true /\ owed s = true)
-    /\ (let s := fst (run step_loop (init Default 8 0 1 [1%nat]) es) in
+    /\ (let s := fst (run step_loop (init Default 8 0 0 1 [1%nat]) es) in
         pp s = PInKernel /\ polls s = 1%nat /\ aw s = false /\ pstate s = IS_POLLING
         /\ cq s = 0 /\ sqh s = sqt s /\ all_wakers_finished s
         /\ owed s = true /\ ev_ok s Stuck
@@ -159,11 +172,58 @@ Check (eq_refl : pintr = fun s =>
   end).
 Check (eq_refl : ret_dist = fun p =>
   match p with
-  | PWbH => Some 9%nat | PWbT => Some 8%nat | PWbTry => Some 7%nat
-  | PClearPolling | PClearPollingIntr => Some 6%nat
-  | PLoadCqT2 => Some 5%nat | PStoreHead => Some 4%nat
-  | PEndWbH => Some 3%nat | PEndWbT => Some 2%nat | PEndWbTry => Some 1%nat
+  | PWbH => Some 11%nat | PWbT => Some 10%nat | PWbTry _ => Some 9%nat | PWbLock _ _ => Some 8%nat
+  | PClearPolling | PClearPollingIntr => Some 7%nat
+  | PLoadCqT2 => Some 6%nat | PStoreHead => Some 5%nat
+  | PEndWbH => Some 4%nat | PEndWbT => Some 3%nat | PEndWbTry _ => Some 2%nat | PEndWbLock _ _ => Some 1%nat
   | _ => None
+  end).
+(* the parked futures: the initial state, [wake_blocked_futures] at the poller's two call sites
+   and at the waker's, pinned *)
+Check (eq_refl : init = fun m c prefill nparked npolls wcalls =>
+  {| md := m; cap := c; sqo := prefill; pstate := 0; sqh := 0; sqt := prefill; cq := 0; holder := None;
+     pp := PIdle; polls := npolls; aw := false; lh := 0; seen := 0; psub := 0;
+     wakers := map (fun c => {| wp := WIdle; calls := c; wok := false |}) wcalls;
+     wlh := map (fun _ => 0) wcalls; parked := nparked; owed := false; lost := false |}).
+Check (eq_refl : wbf_available = fun s loaded_head => cap s - (sqt s - loaded_head)).
+Check (eq_refl : wbf_rest = fun avail n => n - N.min avail n).
+Check (eq_refl : wbf_left = fun avail n => avail - N.min avail n).
+Check (eq_refl : wbf_putback = fun s rest left => set_parked s (rest + N.min left (parked s))).
+Check (eq_refl : (fun s a => pstep (set_p s (PWbTry a))) = fun s a =>
+  let s := set_p s (PWbTry a) in
+  if parked s =? 0 then set_p s PClearPolling
+  else set_p (set_parked s 0) (PWbLock (wbf_rest a (parked s)) (wbf_left a (parked s)))).
+Check (eq_refl : (fun s r l => pstep (set_p s (PWbLock r l))) = fun s r l =>
+  set_p (wbf_putback (set_p s (PWbLock r l)) r l) PClearPolling).
+Check (eq_refl : (fun s a => pstep (set_p s (PEndWbTry a))) = fun s a =>
+  let s := set_p s (PEndWbTry a) in
+  if parked s =? 0 then poll_return s
+  else set_p (set_parked s 0) (PEndWbLock (wbf_rest a (parked s)) (wbf_left a (parked s)))).
+Check (eq_refl : (fun s r l => pstep (set_p s (PEndWbLock r l))) = fun s r l =>
+  poll_return (wbf_putback (set_p s (PEndWbLock r l)) r l)).
+Check (C11_has_waiting_bit_loses_wakeup_refuted :
+  exists es,
+    valid_hw (init_hw Default 2 2 1 1 [1%nat]) es
+    /\ nth_error es 5 = Some (W 0)
+    /\ (let s := fst (run step_hw (init_hw Default 2 2 1 1 [1%nat]) (firstn 5 es)) in
+        pp s = PInKernel /\ pstate s = N.lor IS_POLLING HAS_WAITING /\ parked s = 1
+        /\ cq s = 0 /\ sqh s = sqt s /\ owed s = false)
+    /\ (let s := fst (run step_hw (init_hw Default 2 2 1 1 [1%nat]) es) in
+        pp s = PInKernel /\ polls s = 1%nat /\ aw s = false
+        /\ pstate s = N.lor (N.lor IS_POLLING HAS_WAITING) IS_AWOKEN /\ parked s = 1
+        /\ cq s = 0 /\ sqh s = sqt s /\ all_wakers_finished s
+        /\ owed s = true /\ ev_ok s Stuck
+        /\ lost (fst (step_hw s Stuck)) = true)
+    /\ valid (init Default 2 2 1 1 [1%nat]) es
+    /\ (let s := fst (run step (init Default 2 2 1 1 [1%nat]) es) in
+        pp s = PInKernel /\ pstate s = N.lor IS_POLLING IS_AWOKEN /\ owed s = true
+        /\ nth_error (wakers s) 0 = Some {| wp := WAddH1; calls := 1; wok := false |})).
+Check (valid_hw_nil : forall s, valid_hw s []).
+Check (valid_hw_cons : forall s e es, ev_ok s e -> valid_hw (fst (step_hw s e)) es -> valid_hw s (e :: es)).
+Check (eq_refl : step_hw = fun s e =>
+  match e with
+  | W i => (wstep_hw s i, [])
+  | _ => (hw_post_p s (fst (step s e)), [])
   end).
 Check (valid_loop_nil : forall s, valid_loop s []).
 Check (valid_loop_cons : forall s e es, ev_ok s e -> valid_loop (fst (step_loop s e)) es -> valid_loop s (e :: es)).
@@ -180,6 +240,8 @@ Check (eintr_example_default : interrupted_then_returns Default).
 Check (eintr_example_single : interrupted_then_returns SingleIssuer).
 Check eintr_example_kthread.
 Check eintr_example_blocked.
+Check parked_example.
+Check has_waiting_nobody_parked.
 Print Assumptions C11_no_lost_ring_wakeup.
 Print Assumptions C11_wake_is_on_its_way.
 Print Assumptions C11_awoken_bit_makes_next_poll_prompt.
@@ -189,6 +251,9 @@ Print Assumptions C11_strict_target_reading_refuted.
 Print Assumptions C11_interrupted_enter_makes_poll_return.
 Print Assumptions C11_poll_return_clears_owed.
 Print Assumptions C11_eintr_retry_loses_wakeup_refuted.
+Print Assumptions C11_has_waiting_bit_loses_wakeup_refuted.
+Print Assumptions parked_example.
+Print Assumptions has_waiting_nobody_parked.
 Print Assumptions eintr_example_default.
 Print Assumptions eintr_example_single.
 Print Assumptions eintr_example_kthread.
